@@ -123,6 +123,7 @@ type T struct {
 	sample     any
 	coord      string
 	sigCoord   *string
+	extraEvals, extraDistinct int64
 }
 
 // SigCoord sets the coordinates used in the signature of a panic of this case
@@ -144,6 +145,14 @@ func (t *T) Nontrivial() { t.nontrivial = true }
 // Step counts one application of an implementation entry point.
 func (t *T) Step() { t.steps++ }
 func (t *T) Steps(n int) { t.steps += int64(n) }
+
+// Count lets an engine that explores inside one case (E2) report what it
+// covered: executions run, distinct non-trivial ones, implementation steps.
+func (t *T) Count(evals, distinct, steps int64) {
+	t.extraEvals += evals
+	t.extraDistinct += distinct
+	t.steps += steps
+}
 
 // Sample offers a rendering of the case for the evidence file.
 func (t *T) Sample(s any) { t.sample = s }
@@ -185,6 +194,9 @@ func (r *Runner) Note(k string, v any) {
 	}
 	r.st.Notes[k] = v
 }
+
+// MarkIncomplete records that part of the space was not covered (cap hit).
+func (r *Runner) MarkIncomplete() { r.capHit = true; r.st.CapHit = true }
 
 // Stopped reports whether the budget is exhausted; enumerators should return.
 func (r *Runner) Stopped() bool { return r.capHit }
@@ -250,6 +262,12 @@ func (r *Runner) Do(caseID string, fn func(t *T)) {
 		fn(t)
 	}()
 	r.st.Evaluations++
+	if t.extraEvals > 0 {
+		r.st.Evaluations += t.extraEvals - 1
+		for i := int64(0); i < t.extraDistinct; i++ {
+			r.keys[uint64(len(r.keys))*0x9e3779b97f4a7c15+uint64(r.idx)] = struct{}{}
+		}
+	}
 	if t.steps == 0 {
 		t.steps = 1
 	}
